@@ -73,6 +73,7 @@ Section Generic.
      Python lists, Python tuples *)
   Inductive tree :=
   | TF (v : V)
+  | TA (v : V)          (* a number that is not a Python float (0-d numpy array): not found by the walk *)
   | TI (z : Z)
   | TX (tok : Z)
   | TO (fs : list (string * tree))
@@ -138,7 +139,7 @@ Section Generic.
 
   Definition num_of (t : tree) : option V :=
     match t with
-    | TF v => Some v
+    | TF v | TA v => Some v
     | TI z => Some (ofZ z)
     | _ => None
     end.
@@ -182,10 +183,12 @@ Section Generic.
     all_some (map (y_at vm p) xs).
   Definition leaf_value (vm : list (V * entry)) (xs : list V) (v : V) (p : path) : option V :=
     match yvals vm xs p with Some ys => interp xs ys v | None => None end.
+  (* what _interpolate returns, as a leaf: a float (TF) or a 0-d array (TA) *)
+  Variable mk : V -> tree.
   Definition step (vm : list (V * entry)) (xs : list V) (v : V) (acc : option tree) (p : path) : option tree :=
     match acc with
     | None => None
-    | Some cur => match leaf_value vm xs v p with Some y => set p (TF y) cur | None => None end
+    | Some cur => match leaf_value vm xs v p with Some y => set p (mk y) cur | None => None end
     end.
 
   Inductive outcome := OSame (i : nat) | ONew (t : tree) | OErr.
@@ -228,7 +231,7 @@ Section Generic.
     end.
 End Generic.
 
-Arguments TF {V}. Arguments TI {V}. Arguments TX {V}. Arguments TO {V}. Arguments TL {V}. Arguments TT {V}.
+Arguments TF {V}. Arguments TA {V}. Arguments TI {V}. Arguments TX {V}. Arguments TO {V}. Arguments TL {V}. Arguments TT {V}.
 Arguments OSame {V}. Arguments ONew {V}. Arguments OErr {V}.
 Arguments fpaths {V}. Arguments get {V}. Arguments set {V}. Arguments put {V}. Arguments child {V}.
 Arguments num_of {V}. Arguments abscissa {V}. Arguments wf {V}. Arguments numbered {V}.
@@ -253,7 +256,7 @@ Definition linreg_Q (xs ys : list Q) (v : Q) : option Q :=
   else Some (li_eval_Q (lsq_slope xs ys) v (lsq_intercept xs ys)).
 
 Definition interp_at_Q (interp : list Q -> list Q -> Q -> option Q) :=
-  interp_at Qle_bool Qeq_bool inject_Z interp.
+  interp_at Qle_bool Qeq_bool inject_Z interp TF.
 
 (* ---------- binary64 instance: scipy results enter as finite oracle tables ---------- *)
 Inductive method := Linear | Spline.
@@ -275,13 +278,20 @@ Definition interp_F (m : method) (lt : lin_table) (st : spl_table) (xs ys : list
   | Linear => match lin_lookup lt xs ys with Some (s, i) => Some (li_eval_F s v i) | None => None end
   | Spline => spl_lookup st xs ys v
   end.
+(* LinearInterpolator returns a numpy.float64 (a float); what SplineInterpolator returns is read from the
+   source: Gen.spline_returns_float *)
+Definition leaf_F (m : method) : float -> tree float :=
+  match m with
+  | Linear => TF
+  | Spline => if spline_returns_float then TF else TA
+  end.
 Definition interp_at_F (assign : bool) (m : method) (lt : lin_table) (st : spl_table) :=
-  interp_at PrimFloat.leb PrimFloat.eqb Z2F (interp_F m lt st) assign.
+  interp_at PrimFloat.leb PrimFloat.eqb Z2F (interp_F m lt st) (leaf_F m) assign.
 
 (* ---------- correspondence cases ---------- *)
 Fixpoint tree_eqb (a b : tree float) : bool :=
   match a, b with
-  | TF x, TF y => fbits_eqb x y
+  | TF x, TF y | TA x, TA y => fbits_eqb x y
   | TI x, TI y => Z.eqb x y
   | TX x, TX y => Z.eqb x y
   | TO fs, TO gs =>
@@ -309,12 +319,31 @@ Definition outcome_eqb (a b : outcome float) : bool :=
   | _, _ => false
   end.
 
+(* the hypotheses of the order / known-point / per-leaf theorems (order_ok on the carrier, pairwise
+   different abscissae), decided on the finite carrier of one run: its abscissae and the query value *)
+Definition order_ok_b {V} (leb eqb : V -> V -> bool) (l : list V) : bool :=
+  forallb (fun a => eqb a a) l &&
+  forallb (fun a => forallb (fun b =>
+    implb (eqb a b) (eqb b a) && (leb a b || leb b a) && implb (leb a b && leb b a) (eqb a b) &&
+    forallb (fun c => implb (eqb a b && eqb b c) (eqb a c) && implb (leb a b && leb b c) (leb a c)) l) l) l.
+Fixpoint distinct_b {V} (eqb : V -> V -> bool) (l : list V) : bool :=
+  match l with
+  | [] => true
+  | a :: r => forallb (fun b => negb (eqb a b) && negb (eqb b a)) r && distinct_b eqb r
+  end.
+Definition hyps_F (insts : list (tree float)) (q : list string) (qv : tree float) : bool :=
+  match all_some (map (abscissa Z2F q) insts), num_of Z2F qv with
+  | Some ks, Some v => order_ok_b PrimFloat.leb PrimFloat.eqb (v :: ks) && distinct_b PrimFloat.eqb ks
+  | _, _ => false
+  end.
+
 Record query := Query {
   q_perm : list nat;            (* order in which the instances are supplied *)
   q_method : method;
   q_path : list string;         (* interpolator.<a>.<b> ... *)
   q_value : tree float;         (* == value (TF or TI) *)
-  q_expect : nat                (* index (in the series' table of outcomes) of what the implementation returned *)
+  q_expect : nat;               (* index (in the series' table of outcomes) of what the implementation returned *)
+  q_inq : bool                  (* the harness counts this query as inside the property's quantifier *)
 }.
 
 Definition permute {A} (l : list A) (perm : list nat) : option (list A) :=
@@ -325,6 +354,7 @@ Definition check_query (insts : list (tree float)) (lt : lin_table) (st : spl_ta
   match permute insts (q_perm qu), nth_error outs (q_expect qu) with
   | Some l, Some e =>
       outcome_eqb (interp_at_F assigns_final (q_method qu) lt st l (q_path qu) (q_value qu)) e
+      && implb (q_inq qu) (hyps_F l (q_path qu) (q_value qu))
   | _, _ => false
   end.
 
